@@ -306,6 +306,8 @@ def evaluate():
     facts["str_guarded"] = bool(beh.get("str")) and syn.get("str") != "violated"
     # --- what lies between a pathway's value and the caller: the result containers (Model/MitoBox.lean) -----------
     facts["box"] = behavioural_container_facts(M, facts["notes"])
+    # --- what lies between the caller's TEXT and the engine's readers (Model/MitoText.lean) ---------------------------
+    facts["text_intact"] = behavioural_text_facts(M, facts["notes"])
     facts["ok"] = True
     return facts
 
@@ -589,6 +591,102 @@ def behavioural_container_facts(M, notes):
     return out
 
 
+def behavioural_text_facts(M, notes) -> bool:
+    """Does the engine hand the caller's text to its readers as it is?  Drives the REAL `metabolize` / `digest_glucose`
+    with string literals containing every code point, the fragments a text preprocessor would rewrite, and spellings
+    Python refuses, on every pathway.  Two independent observations, both must hold:
+      * values: a success carries Python's value of the text that was GIVEN (type and value), and a text Python refuses
+        is not answered with a success;
+      * a spy on the module's parser entry points (`ast.parse`, `ast.literal_eval` as the module reaches them): whatever
+        they are handed during the call equals the given text up to surrounding white space.  A module that reaches the
+        parser some other way is simply not seen by the spy (the value observation still decides).
+    Never raises; fail closed."""
+    import contextlib
+    import io
+    try:
+        from .. import mito as _mito
+        cls, P = M.Mitochondria, M.MetabolicPathway
+        real_ast = M.ast
+        seen: list = []
+
+        class _Spy:
+            def __getattr__(self, name):
+                return getattr(real_ast, name)
+
+            def parse(self, source, *a, **k):
+                if isinstance(source, str):
+                    seen.append(source)
+                return real_ast.parse(source, *a, **k)
+
+            def literal_eval(self, node_or_string):
+                if isinstance(node_or_string, str):
+                    seen.append(node_or_string)
+                return real_ast.literal_eval(node_or_string)
+
+        texts = []
+        for j, (f, g) in enumerate(_mito.LITERAL_PAIRS):
+            texts += _mito.literal_texts(f, g, j)[:5]
+        texts += [lit for _first, lit in _mito.unicode_chunk_literals(8000, quick=True)]
+        texts += list(_mito.SPELLINGS)
+        texts += ["1 + 1", " 1 + 1 ", "'a' * 3", "max(1, 2)", "1 < 2 and 'x'", "'true' == '1'", "round(2.567, ndigits=1)"]
+        names = dict(cls.SAFE_FUNCTIONS)
+
+        def reference(t, logic):
+            env = dict(names)
+            if logic:
+                env.update(true=True, false=False)
+            try:
+                v = eval(compile(t, "<ref>", "eval"), {"__builtins__": {}}, env)
+            except BaseException:  # noqa
+                return ("raises", None)
+            return ("value", bool(v) if logic else v)
+
+        ok = True
+        bad = 0
+        M.ast = _Spy()
+        try:
+            with contextlib.redirect_stdout(io.StringIO()):
+                m = cls(silent=True, max_ros=1e9)
+                m.register_function("first", lambda *a, **k: a[0] if a else None)
+                for t in texts:
+                    for pw in (None, P.GLYCOLYSIS, P.KREBS_CYCLE, P.OXIDATIVE, P.BETA_OXIDATION, "legacy"):
+                        given = ("first(" + t + ")") if pw is P.OXIDATIVE else ("[" + t + "]") if pw is P.BETA_OXIDATION else t
+                        del seen[:]
+                        try:
+                            if pw == "legacy":
+                                m.digest_glucose(given)
+                                r = None
+                            else:
+                                r = m.metabolize(given, pw)
+                        except BaseException as e:  # noqa
+                            ok = False
+                            notes.append(f"text probe {given[:24]!a}: {type(e).__name__} escaped")
+                            continue
+                        for s_ in seen:
+                            if s_ is not given and s_.strip() != given.strip():
+                                ok = False
+                                bad += 1
+                                if bad <= 3:
+                                    notes.append(f"text probe {given[:24]!a}: the parser was handed another text "
+                                                 f"({s_[:24]!a})")
+                        if r is None or not getattr(r, "success", False) or r.pathway not in (P.GLYCOLYSIS, P.KREBS_CYCLE):
+                            continue
+                        kind, want = reference(given, r.pathway is P.KREBS_CYCLE)
+                        got = r.atp.value
+                        if kind == "raises" or not _same_value(want, got):
+                            ok = False
+                            bad += 1
+                            if bad <= 3:
+                                notes.append(f"text probe {given[:24]!a} on {r.pathway.value}: the value is not Python's "
+                                             "value of the given text")
+        finally:
+            M.ast = real_ast
+        return ok
+    except BaseException as e:  # noqa
+        notes.append(f"behavioural text probe failed: {e!r}")
+        return False
+
+
 def syntactic_handler_facts(notes):
     """Call-graph analysis of the source.  Per fact: "covered" | "violated" | "not-recognised".  Follows private helpers
     (`self._x(...)`), tables of method names / bound methods (`getattr(self, name)(...)`, a call of a loop variable) and
@@ -703,6 +801,7 @@ def render(f) -> str:
     L = []
     L.append("import Operon.Model.Mito")
     L.append("import Operon.Model.MitoBox")
+    L.append("import Operon.Model.MitoText")
     L.append("/-! GENERATED by harness/vf/extract/e1.py from operon_ai/organelles/mitochondria.py — do not edit. -/")
     L.append("namespace Operon.Mito.Gen")
     L.append("")
@@ -744,6 +843,10 @@ def render(f) -> str:
              "points with sentinel values: the value reaches the caller as it was produced / the legacy text is exactly "
              "str(value) / building a result never raises -/")
     L.append("def box : Box := ⟨" + ", ".join(b(bx.get(k)) for k in ("value", "text", "builds")) + "⟩")
+    L.append("/-- the entry points hand the caller's text to the parser / literal readers as it is (string literals with "
+             "every code point, fragments a text preprocessor would rewrite, spellings Python refuses; values + a spy on "
+             "the parser entry points) -/")
+    L.append("def preKind : PreKind := " + (".identity" if f.get("text_intact") else ".rewrites"))
     L.append("def maxExpressionLength : Option Nat := " +
              ("none" if f.get("max_len") is None else f"some {f['max_len']}"))
     L.append("")
